@@ -60,12 +60,14 @@ ALGN = ["H", "V", "T"]
 class Universe:
     """vocabularies: index -> (dimensions, algebra index)"""
 
-    def __init__(self, spec):
+    def __init__(self, spec, populate=True):
         self.spec = list(spec)
+        self.populated = populate
         self.vocabs = []
         for d, a in self.spec:
             v = spa.Vocabulary(d, algebra=ALGS[a], pointer_gen=np.random.RandomState(7 + len(self.vocabs)))
-            v.populate("A;B")
+            if populate:
+                v.populate("A;B")       # an unpopulated universe: every vocabulary has 0 keys (len(v) == 0, falsy)
             self.vocabs.append(v)
 
     def tok(self):
@@ -103,8 +105,11 @@ class Universe:
         return f"?{t!r}"
 
 
-def vec(n, salt=0):
-    # fixed, non-degenerate data (no zero vector: compare() special-cases scale == 0)
+def vec(n, salt=0, zero=False):
+    # fixed, non-degenerate data; the "zero" realisation variant gives the zero vector (acceptance must not depend
+    # on values: compare() special-cases scale == 0)
+    if zero:
+        return np.zeros(n)
     return np.array([1.0 + ((i * 7 + salt * 3) % 5) * 0.25 for i in range(n)])
 
 
@@ -119,11 +124,14 @@ def realise(U, tok, variant=""):
     if k == "P":
         alg, n = int(p[2]), int(p[3])
         name = "N" if "named" in variant else None
+        zero = "zero" in variant
         if p[1] == "-":
-            return SemanticPointer(vec(n), algebra=ALGS[alg], name=name)
+            return SemanticPointer(vec(n, zero=zero), algebra=ALGS[alg], name=name)
         v = U.vocabs[int(p[1])]
         if "named" in variant:
             return v["A"]            # vocabulary members carry their key as name
+        if zero or not U.populated:
+            return SemanticPointer(vec(n, zero=zero), vocab=v)
         return SemanticPointer(v["A"].v, vocab=v)   # unnamed
     if k == "S":
         if p[1] == "A":
@@ -345,6 +353,13 @@ class Checker:
                     ctx.diff(case, impl, f"{st} {payload}", op="run")
                     return
                 mo, mw = payload.split("|")
+                zero = "zero" in case["variants"].values()
+                if zero:
+                    # compare()/distance() of a zero vector return the Python literal 0 / 1 instead of a NumPy float:
+                    # the kind of number is outside the statement, so both count as "a number" for zero operands
+                    num = lambda t: "G" if t == "N" else t   # noqa: E731
+                    out = [(s_, num(t_)) for s_, t_ in out]
+                    after = [num(a_) for a_ in after]
                 if not self.same(out, after, mo.split(";"), mw.split(";")):
                     ctx.diff(case, impl, payload, op="run:" + case["ops"][0].split(",")[0])
             margs = [U.tok(), ";".join(self.model_obj(t) for t in objs), ";".join(ops)]
@@ -470,18 +485,18 @@ class Checker:
         return bare[2] == voc[2] and bare[3] == U.spec[voc[1]][1]     # same dimensionality and algebra
 
 
-REPR = ("P:0:0:4", "P:-:0:4", "S:A", "M:V0", "R:4")   # partners against which the realisation variants are run
+REPR = ("P:0:0:4", "P:1:0:4", "P:3:1:4", "P:-:0:4", "P:-:1:4", "S:A", "M:V0", "R:4")   # partners against which the realisation variants are run
 
 
 def kinds_for(U, tier):
     ks = []
     for i, (d, a) in enumerate(U.spec):
-        ks.append((f"P:{i}:{a}:{d}", ["", "named"] if i == 0 else [""]))
+        ks.append((f"P:{i}:{a}:{d}", ["", "named", "zero"] if i == 0 else ["", "zero"]))
     bare = [(0, 4), (1, 4), (0, 9), (0, 1)]
     if tier != "quick":
         bare += [(2, 4), (1, 9)]
     for j, (a, n) in enumerate(bare):
-        ks.append((f"P:-:{a}:{n}", ["", "named"] if j == 0 else [""]))
+        ks.append((f"P:-:{a}:{n}", ["", "named", "zero"] if j == 0 else ["", "zero"]))
     ks.append(("S:A", [""]))
     for i in range(len(U.spec)):
         if tier != "quick" or i < 3:
@@ -513,39 +528,47 @@ def run(ctx):
     kinds = kinds_for(U, ctx.tier)
     pair_counts = {}
 
-    # ---- 1. the full matrix ------------------------------------------------
-    for op in BINOPS:
-        for (a, avs), (b, bvs) in itertools.product(kinds, repeat=2):
-            if a[0] in "NGR" and b[0] in "NGR":
-                continue                                    # no SPA operand: Python/NumPy only
-            if op in METHODS_OF and a[0] in "NGR":
-                continue                                    # ndarray.dot etc. are NumPy's methods
-            # variants: the first operand's variants with the default of the second, and vice versa
-            vlist = [("", "")]
-            if b in REPR:
-                vlist += [(x, "") for x in avs if x]
-            if a in REPR:
-                vlist += [("", y) for y in bvs if y]
-            for va, vb in vlist:
-                variants = {k: v for k, v in ((0, va), (1, vb)) if v}
-                la, lb = label(U, a), label(U, b)
-                nontrivial = any(x[1] is not None or x[3] is not None or x[0] in "SY" for x in (la, lb))
-                completions = {}
-                # run the operation alone first to see what has to be completed
-                pre = run_program(U, [a, b], [f"{op},0,1"], variants)
-                st, tok = pre[0][0]
-                pair_counts[f"{a[0]}x{b[0]}"] = pair_counts.get(f"{a[0]}x{b[0]}", 0) + 1
-                if st == "ok" and tok[0] in "PSY" and op != "rshift":
-                    match, others = sink_candidates(U, la, lb, ctx.tier)
-                    if tok == "Y:S":                 # scalar-valued node (dot product): its sink is a Scalar
-                        others = [match] + [o for o in others if o != "M:S"]
-                        match = "M:S"
-                    for sink in dict.fromkeys([match] + others):
-                        o2, _, _ = ck.program([a, b, sink], [f"{op},0,1", "rshift,3,2"], variants,
-                                              branch="completion", nontrivial=nontrivial)
-                        completions[sink] = (o2[0][0] == "ok" and o2[1] == ("ok", "none"))
-                ck.program([a, b], [f"{op},0,1"], variants, branch="matrix", nontrivial=nontrivial,
-                           oracle=ck.oracle_pair(op, a, b, completions), pre=pre)
+    # ---- 1. the full matrix (populated universe, then the same universe with 0-key vocabularies) ----
+    def matrix(U, ck, kinds, extra_variant):
+        for op in BINOPS:
+            for (a, avs), (b, bvs) in itertools.product(kinds, repeat=2):
+                if a[0] in "NGR" and b[0] in "NGR":
+                    continue                                    # no SPA operand: Python/NumPy only
+                if op in METHODS_OF and a[0] in "NGR":
+                    continue                                    # ndarray.dot etc. are NumPy's methods
+                # variants: the first operand's variants with the default of the second, and vice versa
+                vlist = [("", "")]
+                if b in REPR:
+                    vlist += [(x, "") for x in avs if x]
+                if a in REPR:
+                    vlist += [("", y) for y in bvs if y]
+                for va, vb in vlist:
+                    variants = {**{k: v for k, v in ((0, va), (1, vb)) if v}, **extra_variant}
+                    la, lb = label(U, a), label(U, b)
+                    nontrivial = any(x[1] is not None or x[3] is not None or x[0] in "SY" for x in (la, lb))
+                    completions = {}
+                    # run the operation alone first to see what has to be completed
+                    pre = run_program(U, [a, b], [f"{op},0,1"], variants)
+                    st, tok = pre[0][0]
+                    pair_counts[f"{a[0]}x{b[0]}"] = pair_counts.get(f"{a[0]}x{b[0]}", 0) + 1
+                    if st == "ok" and tok[0] in "PSY" and op != "rshift":
+                        match, others = sink_candidates(U, la, lb, ctx.tier)
+                        if tok == "Y:S":                 # scalar-valued node (dot product): its sink is a Scalar
+                            others = [match] + [o for o in others if o != "M:S"]
+                            match = "M:S"
+                        for sink in dict.fromkeys([match] + others):
+                            o2, _, _ = ck.program([a, b, sink], [f"{op},0,1", "rshift,3,2"], variants,
+                                                  branch="completion", nontrivial=nontrivial)
+                            completions[sink] = (o2[0][0] == "ok" and o2[1] == ("ok", "none"))
+                    ck.program([a, b], [f"{op},0,1"], variants, branch="matrix", nontrivial=nontrivial,
+                               oracle=ck.oracle_pair(op, a, b, completions), pre=pre)
+    matrix(U, ck, kinds, {})
+    # value/emptiness independence: vocabularies without keys are falsy Python objects; acceptance, the result's
+    # vocabulary and algebra must be the same as for populated ones (symbols need keys and are left out)
+    U0 = Universe(spec, populate=False)
+    ck0 = Checker(ctx, U0)
+    kinds0 = [(k, [v for v in vs if v != "named"]) for k, vs in kinds if k[0] != "S"]
+    matrix(U0, ck0, kinds0, {-1: "emptyvocab"})
     ctx.extra["kind_pairs"] = pair_counts
 
     # ---- 2. explicit casts --------------------------------------------------
